@@ -15,9 +15,14 @@
    NOT modelled (the partiality): the SDK modules in the order lists (capability, staking, slashing, evidence,
    distribution proper, gov, bank, auth, IBC, CCV consumer, ...), panics inside the SDK (math overflow, store),
    Commit, and code deeper than the translator's call depth. The correspondence run drives the real
-   FinalizeBlock + Commit for that part. *)
+   FinalizeBlock + Commit for that part.
+   The calls of the estaking end blocker into the SDK distribution keeper (WithdrawDelegationRewards and the staking
+   hooks fired by estaking's commitment hooks) are listed in the table as KExtPanic points with the number of explicit
+   panic sites they reach inside the SDK; they are reviewed under class RSdk, i.e. C18_blocks_never_fail_partial ASSUMES
+   that distribution's sanity checks hold (recorded starting stake <= current stake for every real or virtual
+   delegation). Only the staking histories of the correspondence run exercise that assumption. *)
 From Coq Require Import String List Bool ZArith.
-From Elys Require Import Base.Res Models.Blocks Generated.BlockerSurface Proofs.BlocksProofs.
+From Elys Require Import Base.Res Base.Zdec Models.Blocks Models.StakerRewards Generated.BlockerSurface Proofs.BlocksProofs Proofs.StakerRewardsProofs.
 Import ListNotations.
 Open Scope string_scope.
 
@@ -88,6 +93,40 @@ Theorem C18_blocks_never_fail_partial : forall e assume, reach e ->
   exists s', run_block step oc (holds_in e assume) true blockers s = Ok s'.
 Proof. exact (pipeline_total_reviewed blockers sites_ok). Qed.
 Print Assumptions C18_blocks_never_fail_partial.
+
+(* The RNonNeg assumption about the two reward amounts of the estaking end blocker that divide by int64(TotalBlocksPerYear)
+   (UpdateStakersRewards: NewCoin(EdenB, stakersEdenBAmount), the APR cap of the Eden amount), exact LegacyDec arithmetic:
+   it HOLDS for every non-negative stake and APR while TotalBlocksPerYear < 2^63 ... *)
+Theorem C18_edenb_amount_nonneg : forall total apr tbpy, (0 <= total)%Z -> (0 <= apr)%Z -> tbpy_int64 tbpy ->
+  (0 <= edenb_amount total apr tbpy)%Z.
+Proof. exact edenb_amount_nonneg. Qed.
+Print Assumptions C18_edenb_amount_nonneg.
+
+Theorem C18_eden_cap_nonneg : forall total apr tbpy, (0 <= total)%Z -> (0 <= apr)%Z -> tbpy_int64 tbpy ->
+  (0 <= eden_cap total apr tbpy)%Z.
+Proof. exact eden_cap_nonneg. Qed.
+Print Assumptions C18_eden_cap_nonneg.
+
+(* Since fix: f62637f x/parameter refuses TotalBlocksPerYear above MaxInt64, so for EVERY accepted value the amounts
+   minted in the estaking end blocker are non-negative (sdk.NewCoin cannot panic there). *)
+Theorem C18_edenb_amount_nonneg_accepted : forall total apr tbpy, (0 <= total)%Z -> (0 <= apr)%Z -> tbpy_accepted tbpy ->
+  (0 <= edenb_amount total apr tbpy)%Z.
+Proof. exact edenb_amount_nonneg_accepted. Qed.
+Print Assumptions C18_edenb_amount_nonneg_accepted.
+
+Theorem C18_eden_cap_nonneg_accepted : forall total apr tbpy, (0 <= total)%Z -> (0 <= apr)%Z -> tbpy_accepted tbpy ->
+  (0 <= eden_cap total apr tbpy)%Z.
+Proof. exact eden_cap_nonneg_accepted. Qed.
+Print Assumptions C18_eden_cap_nonneg_accepted.
+
+(* BEFORE the fix it was REFUTED for the values x/parameter accepted (every non-zero uint64): with TotalBlocksPerYear = 2^63
+   the EdenB amount is -1 for about 6*10^12 uelys staked at EdenBoostApr 10^6. GENUINE DEFECT, replayed on the real
+   application through governance + staking messages only (first history of c18StakeCorpus, signature
+   C18:block-failed:estaking.UpdateStakersRewards:total-blocks-per-year-above-int64); repaired by f62637f. *)
+Theorem C18_edenb_amount_prefix_refuted : exists total apr tbpy,
+  (0 <= total)%Z /\ (0 <= apr)%Z /\ tbpy_accepted_prefix tbpy /\ (edenb_amount total apr tbpy < 0)%Z.
+Proof. exact edenb_amount_prefix_refuted. Qed.
+Print Assumptions C18_edenb_amount_prefix_refuted.
 
 (* Non-vacuity: a concrete environment satisfies [reach]. *)
 Example C18_reach_nonvacuous : reach env0.
